@@ -24,7 +24,7 @@ checks = {
    note="Trusted: item completion offsets from the generators (validated against the number of handed-out items), the peer, the source log.",
    tech="deterministic simulation: two-party lock-step protocol between a simulated line-buffered producer and the real streaming parsers; read-call accounting on the simulated source"),
  "C10": dict(cat="exploration", ref="DESIGN.md §4 C10",
-   text="Seeded streams (never materialised) of 8..128 x the bound are pushed through the real cnf/wcnf/gcnf/btor2/aag/aig streaming parsers under seeded chunk sizes (1..16384) and read-size policies (full, one line per read, one byte, random, Interrupted); a counting allocator with per-thread counters observes the peak live heap at every item; oracle: peak - baseline <= 16*chunk + 32*max_item + 64 KiB, independent of the stream length. Streams contain bursts of up to 2*10^5 consecutive comment-only / blank-only / mixed filler lines. A second component (C10r) does the same for consumers of the raw reader API that keep a fixed look-ahead buffered (request(L) per record, request_byte_at_offset(L-1), or request_more() + buf() only), with max(L, record) in the role of the largest item.",
+   text="Seeded streams (never materialised) of 8..128 x the bound are pushed through the real cnf/wcnf/gcnf/btor2/aag/aig streaming parsers under seeded chunk sizes (1..16384) and read-size policies (full, one line per read, one byte, random, Interrupted); a counting allocator with per-thread counters observes the peak live heap at every item; oracle: peak - baseline <= 16*chunk + 32*max_item + 64 KiB, independent of the stream length. Streams contain bursts of up to 2*10^5 consecutive comment-only / blank-only / mixed filler lines. DIMACS streams also contain clauses that are split over lines with up to 2*10^5 filler lines between two of their literals, and BTOR2 streams may end in a malformed justice line that declares millions of conditions (it must be rejected without memory for the declared count). A second component (C10r) does the same for consumers of the raw reader API that keep a fixed look-ahead buffered (request(L) per record, request_byte_at_offset(L-1), or request_more() + buf() only), with max(L, record) in the role of the largest item.",
    note="Trusted: the counting allocator (wraps System), the bound's constants (>= 2x slack over the reader's own policy; a leak must grow by more than 1/8 byte per streamed byte to be seen at the minimum stream length).",
    tech="deterministic simulation: unbounded generated source + counting allocator, peak live heap checked against a stream-length-independent bound at every item"),
  "C11": dict(cat="exploration", ref="DESIGN.md §4 C11",
